@@ -2,7 +2,8 @@ import HpoModel
 open Hpo Hpo.Drv
 
 def handlers : List (DState → List String → Option Out) :=
-  [Drv.handle, Drv.handleGroup, Drv.handleTermId, Drv.handleQuery, Drv.handleFacts]
+  [Drv.handle, Drv.handleGroup, Drv.handleTermId, Drv.handleQuery, Drv.handleFacts,
+   Drv.handleEnrich, Drv.handleLinkage]
 
 def dispatch (s : DState) (toks : List String) : Out :=
   let rec go : List (DState → List String → Option Out) → Out
